@@ -7,6 +7,9 @@ from concurrent.futures import ThreadPoolExecutor
 VERIF = os.path.dirname(os.path.dirname(os.path.abspath(__file__)))
 REPO = os.environ.get('VERIF_REPO', '/repo')
 ALL = ['C%02d' % i for i in range(1, 21)]
+# checks whose rules read a closed set of files (every function they interpret or match lives there): a patch that touches none of them
+# cannot change their verdict, so the matrix does not spend 16 processes on it
+READS = {'C17': {'src/Intervals.cpp', 'src/inc/Intervals.h', 'src/Collider.cpp', 'src/inc/Collider.h', 'src/Pass.cpp', 'src/inc/List.h', 'src/inc/Main.h', 'src/inc/Position.h'}}
 
 
 def one(args):
@@ -21,7 +24,12 @@ def one(args):
         return name, None, 'patch does not apply: ' + (p.stdout + p.stderr)[-200:]
     env = dict(os.environ, VERIF_REPO=d, VERIF_EVIDENCE_DIR=os.path.join(d, '_ev'), VERIF_CACHE_DIR=os.path.join(d, '_cache'))
     res = {}
+    touched = set(re.findall(r'^\+\+\+ b/(\S+)', open(patch).read(), re.M))
     for c in checks:
+        only_reads = READS.get(c)
+        if only_reads and not (touched & only_reads):
+            res[c] = {'exit': 0, 'rules': [], 'first': '', 'broken': [], 'skipped': 'the patch touches none of the files this check reads'}
+            continue
         q = subprocess.run([sys.executable, os.path.join(VERIF, 'bin', 'check.py'), c], capture_output=True, text=True, env=env, cwd=VERIF)
         rules = sorted(set(re.findall(r'^  ([A-Z0-9]+)/', q.stdout, re.M)))
         res[c] = {'exit': q.returncode, 'rules': rules, 'first': (re.findall(r'^  [A-Z0-9]+/.*$', q.stdout, re.M) or [''])[0][:300],
